@@ -1,6 +1,9 @@
 package chainh
 
 import (
+	"time"
+	"strings"
+	"net"
 	"os"
 	"strconv"
 )
@@ -32,3 +35,35 @@ type Result struct {
 
 // EnvInt is envInt for the in-package rigs.
 func EnvInt(name string, def int64) int64 { return envInt(name, def) }
+
+
+// PatientListen / PatientDial: a machine that has run out of ephemeral ports (thousands of short loopback connections per
+// second leave their ports in TIME_WAIT for a minute) answers "address already in use" / "cannot assign requested
+// address"; that says nothing about the code under test - wait for ports to come back, up to three minutes.
+func PatientListen(network, addr string) (net.Listener, error) {
+	var ln net.Listener
+	var err error
+	for t0 := time.Now(); ; {
+		if ln, err = net.Listen(network, addr); err == nil || !portsExhausted(err) || time.Since(t0) > 3*time.Minute {
+			return ln, err
+		}
+		time.Sleep(500 * time.Millisecond)
+	}
+}
+
+// PatientDial dials with the given dialer, waiting for ports as PatientListen does.
+func PatientDial(d *net.Dialer, network, addr string) (net.Conn, error) {
+	var c net.Conn
+	var err error
+	for t0 := time.Now(); ; {
+		if c, err = d.Dial(network, addr); err == nil || !portsExhausted(err) || time.Since(t0) > 3*time.Minute {
+			return c, err
+		}
+		time.Sleep(500 * time.Millisecond)
+	}
+}
+
+func portsExhausted(err error) bool {
+	s := err.Error()
+	return strings.Contains(s, "address already in use") || strings.Contains(s, "cannot assign requested address")
+}
